@@ -82,9 +82,14 @@ def run_one(sc):
                 nmissing += 1
                 paths.append(p)
                 continue
-            doc = build_file(f, tmp)
-            with contextlib.redirect_stdout(io.StringIO()):
-                doc.write_rtf(p)
+            if (sc.get("env") or {}).get("twin") and f is files[-1] and raw and len(files) >= 2:
+                # the last input is a byte-for-byte copy of the first (the same divider page used twice)
+                with open(p, "wb") as fh:
+                    fh.write(raw[0])
+            else:
+                doc = build_file(f, tmp)
+                with contextlib.redirect_stdout(io.StringIO()):
+                    doc.write_rtf(p)
             data = open(p, "rb").read()
             raw.append(data)
             pages, obs = read_pages(data)
@@ -109,6 +114,10 @@ def run_one(sc):
                 with open(paths[0], "wb") as fh:
                     fh.write(raw[0])
                 os.utime(paths[0], ns=(st.st_atime_ns, st.st_mtime_ns))
+        if env.get("stale") and files:
+            # a longer file from an earlier run sits at the output path
+            with open(out, "wb") as fh:
+                fh.write(b"{\\rtf1 old report " + b"x" * 20000 + b"}")
         if env.get("alias") and nmissing == 0 and paths:
             out = paths[0]          # the output path is also the first input (accumulating into one file)
         outcome = "ok"
@@ -118,7 +127,7 @@ def run_one(sc):
             outcome = "FileNotFoundError"
         except Exception as ex:  # noqa
             outcome = "error:" + type(ex).__name__
-        wrote = os.path.exists(out) and not (env.get("alias") and outcome != "ok")
+        wrote = os.path.exists(out) and not ((env.get("alias") or env.get("stale")) and outcome != "ok")
         ev = []
         obs = {"final_depth": 0, "min_depth": 0, "top_groups": 1, "trailing": 0, "signature": True, "lexerrs": 0}
         outdigest = ""
